@@ -25,13 +25,20 @@ class Unreachable(RuntimeError):
     pass
 
 
+def _sqrt(v: float) -> float:
+    """Square root; NaN for negative operands (math.sqrt raises)."""
+    if v < 0:
+        return math.nan
+    return math.sqrt(v)
+
+
 def f32_sqrt(v: ir.f32) -> ir.f32:
     """Square root"""
-    return _to_f32(math.sqrt(v))
+    return _to_f32(_sqrt(v))
 
 
 def f64_sqrt(v: ir.f64) -> ir.f64:
-    return math.sqrt(v)
+    return _sqrt(v)
 
 
 def i32_rotr(v: ir.i32, cnt: ir.i32) -> ir.i32:
